@@ -125,6 +125,10 @@ def run_path(contract, decisions, registry, first):
                 cur = holder.attrs.get(attr) if isinstance(holder, Obj) else None
                 if isinstance(cur, (PyList, PyDict, PySet, SymSeq, SymMap)):
                     allowed.add((id(cur), '*'))
+                    if isinstance(cur, PyDict):
+                        for x in cur.vals:
+                            if isinstance(x, (PyList, PyDict, PySet, SymSeq, SymMap)):
+                                allowed.add((id(x), '*'))
 
         def frame_cb(fr):
             fr.contract = contract
